@@ -1,22 +1,21 @@
 #!/bin/bash
-# Must-fail corpus: every canary patch (reverse of a fix: commit, or a kept seeded mutant) must make
-# the named property's check report a VIOLATION; the unpatched tree must report none.
-# usage: tools/selftest.sh [name-substring]
+# Must-fail corpus: every canary patch (reverse of a fix: commit) and every kept seeded change must make
+# the named property's check report a VIOLATION. Each is applied to a scratch copy of /repo's working
+# tree (under /tmp, removed afterwards), several at a time; /repo itself is not touched.
+# usage: tools/selftest.sh [name-substring]      (WORKERS=n to change the parallelism, default 4)
 cd /verif
+export GOFLAGS=-mod=mod GOPROXY=off GOSUMDB=off GOTOOLCHAIN=local
 mkdir -p /verif/work
+W=${WORKERS:-4}
+base=/tmp/bmc-selftest.$$
+trap 'rm -rf $base' EXIT
+mkdir -p $base
 fail=0
 if [ -z "$1" ]; then
   # the scripted-peer replay oracle itself: hand-picked scripts against the current (unchanged) tree
   if ./bin/bmcvc replaycheck > /verif/work/replaycheck.out 2>&1; then echo "ok   replay oracle check ($(grep -c '^ok' /verif/work/replaycheck.out) cases)"; else echo "MISS replay oracle check"; cat /verif/work/replaycheck.out; fail=1; fi
 fi
-run() { # name prop patch
-  if ! git -C /repo apply --check "$3" 2>/dev/null; then echo "SKIP $1 (patch does not apply to the current tree)"; return; fi
-  git -C /repo apply "$3"
-  out=$(./check "$2" quick 2>&1); rc=$?
-  git -C /repo checkout -- .
-  if [ $rc -eq 1 ] && echo "$out" | grep -q "^VIOLATION property=$2"; then echo "ok   $1 -> $2 violation detected ($(echo "$out" | grep -c '^VIOLATION') obligations, $(echo "$out" | grep '^VIOLATION' | grep -vc 'no-failing-input-found') with a confirmed replay)"; else echo "MISS $1 -> $2 exit=$rc"; fail=1; fi
-}
-python3 - "$1" <<'PY' > /verif/work/selftest.list
+python3 - "$1" <<'PY' > $base/list
 import json,sys,os,glob
 pat=sys.argv[1] if len(sys.argv)>1 else ''
 for e in json.load(open('/verif/selftest/canaries/index.json')):
@@ -26,5 +25,22 @@ for d in sorted(glob.glob('/verif/seeded/*')):
     n=os.path.basename(d)
     if pat in n: print('seeded-'+n,m['property'],d+'/patch.diff')
 PY
-while read n p f; do run "$n" "$p" "$f"; done < /verif/work/selftest.list
+run() { # name prop patch
+  d=$base/w.$BASHPID
+  rm -rf $d; mkdir -p $d/repo $d/out
+  rsync -a --exclude .git /repo/ $d/repo/
+  if ! (cd $d/repo && patch -p1 -s --dry-run < "$3") >/dev/null 2>&1; then echo "SKIP $1 (patch does not apply to the current tree)"; rm -rf $d; return; fi
+  (cd $d/repo && patch -p1 -s < "$3")
+  out=$(/verif/bin/bmcvc check --tier quick --timeout 20s -repo $d/repo -out $d/out "$2" 2>&1); rc=$?
+  if [ $rc -eq 1 ] && echo "$out" | grep -q "^VIOLATION property=$2"; then
+    echo "ok   $1 -> $2 violation detected ($(echo "$out" | grep -c '^VIOLATION') obligations, $(echo "$out" | grep '^VIOLATION' | grep -vc 'no-failing-input-found') with a confirmed replay)"
+  else
+    echo "MISS $1 -> $2 exit=$rc"
+  fi
+  rm -rf $d
+}
+export -f run; export base
+xargs -P $W -L 1 bash -c 'run "$0" "$1" "$2"' < $base/list | tee $base/results
+grep -q '^MISS' $base/results && fail=1
+echo "selftest: $(grep -c '^ok' $base/results) detected, $(grep -c '^MISS' $base/results) missed, $(grep -c '^SKIP' $base/results) skipped"
 exit $fail
